@@ -192,3 +192,72 @@ def hist_note(why, hist):
     if not hist:
         return why
     return why + ' — asked on ONE thread after these calls, in this order: ' + ' ; '.join(hist)
+
+
+def lookahead_machine(m, k, la, dev_print, twin_exit, marker=3):
+    """A 4-colour "transfer with look-ahead" machine as program text (<= 26 states):
+       boot   : writes  marker 2^m 1^k  and walks back to the 2/1 boundary;
+       period : MAIN turns the first 1 into a 2, looks `la` cells further ahead, walks back: 2^a [1] 1^b -> 2^(a+1) [1] 1^(b-1);
+       when the look-ahead meets the blank (only `la` ones left) the walk back DEVIATES: it leaves `dev_print` in the cell
+       the period ends on and, with twin_exit, ends in a state TWIN that has no instructions.
+    These are the machines on which a rule inferred from a few periods stops being true near the end of the block
+    (finding F14) and on which lax signature/state checks in the rule inference show (seeded changes C03-m2, C03-m4)."""
+    L, R = False, True
+    prog = {}
+    s = 0
+    prog[(s, 0)] = (marker, R, s + 1)
+    s += 1
+    for _ in range(m):
+        prog[(s, 0)] = (2, R, s + 1)
+        s += 1
+    for _ in range(k - 1):
+        prog[(s, 0)] = (1, R, s + 1)
+        s += 1
+    prog[(s, 0)] = (1, L, s + 1)
+    s += 1
+    back0 = s
+    main = s + 1
+    prog[(back0, 1)] = (1, L, back0)
+    prog[(back0, 2)] = (2, R, main)
+    look = [main + 1 + i for i in range(la)]
+    back = [main + 1 + la + i for i in range(la)]
+    dev = [main + 1 + 2 * la + i for i in range(la)]
+    twin = main + 1 + 3 * la
+    prog[(main, 1)] = (2, R, look[0])
+    for i in range(la - 1):
+        prog[(look[i], 1)] = (1, R, look[i + 1])
+    prog[(look[-1], 1)] = (1, L, back[0])
+    for i in range(la - 1):
+        prog[(back[i], 1)] = (1, L, back[i + 1])
+    prog[(back[-1], 2)] = (2, R, main)
+    # the last look-ahead state meets the blank: exactly `la` ones are left after the converted cell
+    prog[(look[-1], 0)] = (0, L, dev[0])
+    for i in range(la - 2):
+        prog[(dev[i], 1)] = (1, L, dev[i + 1])
+    if la >= 2:
+        last = dev[la - 2]
+        if twin_exit:
+            prog[(last, 1)] = (dev_print, L, dev[la - 1])
+            prog[(dev[la - 1], 2)] = (2, R, twin)
+        else:
+            prog[(last, 1)] = (dev_print, L, back[-1])
+    else:
+        prog[(dev[0], 2)] = (2, R, twin if twin_exit else main)
+    nstates = max(max(q, i[2]) for (q, _), i in prog.items()) + 1
+    if nstates > 26:
+        return None
+    table = [[prog.get((q, c)) for c in range(4)] for q in range(nstates)]
+    return prog_text(table)
+
+
+def lookahead_machines():
+    out = []
+    for m in (1, 2):
+        for k in range(6, 19):
+            for la in (1, 2, 3):
+                for dp in (0, 1, 2):
+                    for tw in (False, True):
+                        p = lookahead_machine(m, k, la, dp, tw)
+                        if p and p not in out:
+                            out.append(p)
+    return out
